@@ -375,6 +375,13 @@ func genRegCase(rng *rand.Rand) *regCase {
 			} else if st.Split == 0 && rng.Intn(20) == 0 {
 				// Routes() with one more method as a string argument (known, or known only after trimming / splitting)
 				st.Method = []string{st.Method, " " + st.Method + " ", "PATCH, " + st.Method}[rng.Intn(3)]
+				if rng.Intn(3) == 0 {
+					// lists with an empty item, or with something other than a comma between two names: an item is what
+					// stands between two commas, trimmed - and "" or "GET POST" is not the name of a method
+					m := st.Method
+					st.Method = []string{m + ",", "," + m, m + ",,POST", m + " POST", " , ", ",", m + ";POST", m + ", ", m + "\tPOST", m + ",POST,", m + "|POST", m + ",\n"}[rng.Intn(12)]
+					st.Intent = "odd method list"
+				}
 				st.Arg = []string{"PUT", "delete", " POST", "PUT ", "\tDELETE", "BREW", "GET,POST", " "}[rng.Intn(8)]
 				if rng.Intn(2) == 0 {
 					st.Arg = []string{"PUT", "delete", "TRACE"}[rng.Intn(3)]
